@@ -1144,6 +1144,46 @@ fn group_h(cat: &mut Catalogue, tier: Tier) {
         let i = cat.add(Item::Enum(e));
         cat.root(p(Ty::Item(i)), "H", format!("variants sharing field names with different attributes, {deny:?}"));
     }
+    // a map keyed by a generic user type with a path-qualified argument
+    for hashed in [false, true] {
+        cat.root(p(Ty::Map { hashed, key: KeyTy::Gen, val: Box::new(pu8()) }), "H", "map keyed by Gk<String>");
+    }
+    // a field renamed to the empty string (a legal member name), with and without rename_all / deny
+    for (ra, deny) in [(None, Deny::No), (Some(RenameAll::Camel), Deny::Default), (Some(RenameAll::Lower), Deny::No)] {
+        let mut s = base3();
+        s.fields[1].rename = Some(String::new());
+        s.rename_all = ra;
+        s.deny = deny;
+        let i = cat.add(Item::Struct(s));
+        cat.root(p(Ty::Item(i)), "H", format!("a field renamed to the empty key, {ra:?} {deny:?}"));
+    }
+    // variants renamed onto each other's identifiers (a chain and a swap)
+    {
+        let mut e = unit_enum(3, None, false);
+        let ids: Vec<String> = e.variants.iter().map(|v| v.ident.clone()).collect();
+        e.variants[0].rename = Some("old".into());
+        e.variants[1].rename = Some(ids[0].clone());
+        let i = cat.add(Item::Enum(e.clone()));
+        cat.root(p(Ty::Item(i)), "H", "unit enum: second variant renamed to the first one's identifier (chain)");
+        e.variants[0].rename = Some(ids[1].clone());
+        let i = cat.add(Item::Enum(e));
+        cat.root(p(Ty::Item(i)), "H", "unit enum: first two variants renamed to each other's identifiers (swap)");
+        let mut t = tagged_enum("kind");
+        let tids: Vec<String> = t.variants.iter().map(|v| v.ident.clone()).collect();
+        t.rename_all = Some(RenameAll::Lower);
+        t.variants[2].rename = Some(tids[1].clone());
+        t.deny = Deny::Default;
+        let i = cat.add(Item::Enum(t));
+        cat.root(p(Ty::Item(i)), "H", "tagged enum, lowercase: third variant renamed to the second one's identifier");
+    }
+    // a conversion whose intermediate type is spelled exactly like the field's own type
+    for conv in [Conv::From { by_ref: false }, Conv::From { by_ref: true }, Conv::TryFrom { by_ref: false }, Conv::TryFrom { by_ref: true }] {
+        let mut s = base3();
+        s.fields[1].conv = conv;
+        s.fields[1].conv_same_decl = true;
+        let i = cat.add(Item::Struct(s));
+        cat.root(p(Ty::Item(i)), "H", format!("{conv:?} whose intermediate type is the field's own type"));
+    }
     // foreign errors from custom functions: nested, and next to a field-level error type
     {
         let mut inner = base3();
